@@ -7,7 +7,11 @@ UNITS = {'fs': dict(wrap='wrap.cc', new_block=64),
                        src_subst={'Filesystem.cc': [(r'static const ssize_t read_size = 16 \* 1024;', 'static const ssize_t read_size = VERIF_READ_SIZE;', 2)]}),
          # same TU; the cannot_open_file(const string&) constructor (what() text concatenation only) is an external no-op
          # phosg::fgets uses std::deque<std::string>: engine/shim deque (fixed capacity 8 blocks)
-         'fsd': dict(wrap='wrap.cc', shim=True, new_block=600),
+         # and 256-byte blocks (literals 0x100 / 0xFF, not macros). Real size: no verdict (LEN=0 > 40 min); the unit replaces
+         # the literal(s) by VERIF_FGETS_BLOCK = 8 (patterns match the unpatched tree, 2+1 places, and the patched one, 1+0).
+         'fsfb8': dict(wrap='wrap.cc', shim=True, new_block=64, cxxflags=['-DVERIF_FGETS_BLOCK=8'],
+                       cuts=[r'^_ZN5phosg8io_errorC1EiRKNSt7__cxx1112basic_string'],
+                       src_subst={'Filesystem.cc': [(r'0x100', 'VERIF_FGETS_BLOCK', [1, 2]), (r'0xFF', '(VERIF_FGETS_BLOCK - 1)', [0, 1])]}),
          'fsx': dict(wrap='wrap.cc', new_block=64, cuts=[r'^_ZN5phosg16cannot_open_fileC1ERKNSt7__cxx1112basic_string'])}
 BOUNDS = ''
 STUBS = []
@@ -47,8 +51,10 @@ def queries(tier):
         qs.append(dict(name='readall_file_rs4_len%d' % S, unit='fsrs4', harness='h_readall_file.c', defs={'S': S, 'RS': 4}, unwind=max(S, 4) + 4, timeout=900, mem_gb=10, flags=FS0,
                        desc='read_all(FILE*) over a %d-byte symbolic stream, fread per C contract (short only at EOF), block size 4: result == stream' % S,
                        bounds='stream length == %d, block size 4 (substituted for 16384)' % S))
-    for L, nl in [(0, 0), (0, 1), (1, 1), (254, 1), (255, 0), (255, 1), (256, 1), (300, 0)]:
-        qs.append(dict(name='fgets_len%d_nl%d' % (L, nl), unit='fsd', harness='h_fgets.c', defs={'LEN': L, 'HAS_NL': nl}, unwind=262, timeout=1200, mem_gb=12, flags=FS0,
-                       desc='phosg::fgets on a line of %d symbolic bytes %s, ::fgets per C contract with optional fault: whole line or io_error' % (L, 'newline-terminated + 2 following bytes' if nl else 'ended by end of data'),
-                       bounds='line length == %d' % L))
+    FB = 8
+    cells = [(0, 0), (0, 1), (1, 1), (6, 1), (7, 0), (7, 1), (8, 1), (14, 1)] if tier == 'quick' else [(L, nl) for L in (0, 1, 5, 6, 7, 8, 13, 14, 15, 21, 22) for nl in (0, 1)]
+    for L, nl in cells:
+        qs.append(dict(name='fgets_fb8_len%d_nl%d' % (L, nl), unit='fsfb8', harness='h_fgets.c', defs={'LEN': L, 'HAS_NL': nl, 'FB': FB}, unwind=L + FB + 4, timeout=1200, mem_gb=10, flags=FS0,
+                       desc='phosg::fgets (block size 8) on a line of %d symbolic bytes %s, ::fgets per C contract with optional fault: whole line or io_error' % (L, 'newline-terminated + 2 following bytes' if nl else 'ended by end of data'),
+                       bounds='line length == %d, block size 8 (substituted for 256)' % L))
     return qs
